@@ -236,7 +236,7 @@ Proof. intros Hne. destruct p as [|x r]; [congruence|]. unfold guess_if_default_
 
 (* the reflected form of a default of the covered class normalises like the default itself *)
 Lemma default_quiet d : dflt_ok d = true -> norm_default (d_txt (reflect_default d)) = norm_default (d_txt d).
-Proof. destruct d as [s|s]; simpl; intros H.
+Proof. destruct d as [s|s|s p]; simpl; intros H; [| |reflexivity].
   - (* Python string *) unfold autogen_column_reflect. destruct (plain_hd _ H) as [_ Hne].
     assert (Hf: forallb plain_char s = true) by (destruct s; [congruence|exact H]).
     rewrite dbl_quotes_plain; auto.
@@ -258,8 +258,13 @@ Lemma list_eqbN_refl' l : list_eqb N.eqb l l = true. Proof. apply list_eqbN_refl
 
 Definition dok_col (c:col) : Prop := match c_default c with Some d => dflt_ok d = true | None => True end.
 
+Lemma is_computed_reflect d : is_computed (option_map reflect_default d) = is_computed d.
+Proof. destruct d as [[s|s|s p]|]; reflexivity. Qed.
+Lemma is_computed_reflect' d : is_computed (Some (reflect_default d)) = is_computed (Some d).
+Proof. destruct d; reflexivity. Qed.
 Lemma csd_quiet g c : dok_col c -> compare_server_default_col g (reflect_col c) c = None.
-Proof. unfold dok_col, compare_server_default_col. cbn [reflect_col c_default]. destruct (c_default c) as [d|]; cbn [option_map]; auto.
+Proof. unfold dok_col, compare_server_default_col. cbn [reflect_col c_default].
+  destruct (c_default c) as [d|]; cbn [option_map]; auto. rewrite is_computed_reflect'. destruct (is_computed (Some d)); auto.
   intros H. unfold ctx_compare_server_default, sqlite_compare_server_default. cbn [option_map opt_eqb].
   rewrite default_quiet, list_eqbN_refl; auto. destruct (compare_server_default g); auto. Qed.
 
@@ -270,9 +275,20 @@ Definition alter_fix (g:cfg) (cc mc:col) : col :=
 
 Lemma csd_ext g a b mc : c_default a = c_default b -> compare_server_default_col g a mc = compare_server_default_col g b mc.
 Proof. unfold compare_server_default_col. intros ->. auto. Qed.
-Lemma csd_some g rc mc d : compare_server_default_col g rc mc = Some d -> d = c_default mc.
-Proof. unfold compare_server_default_col. destruct (c_default rc), (c_default mc); try congruence;
-    destruct (ctx_compare_server_default _ _ _); congruence. Qed.
+Lemma csd_some g rc mc d : compare_server_default_col g rc mc = Some d ->
+  d = c_default mc /\ is_computed (c_default mc) = false /\ is_computed (c_default rc) = false.
+Proof. unfold compare_server_default_col. set (cd := c_default rc). set (md := c_default mc).
+  assert (H0: (if is_computed md then None else if is_computed cd then None
+               else if ctx_compare_server_default g (option_map d_txt cd) (option_map d_txt md) then Some md else None) = Some d ->
+              d = md /\ is_computed md = false /\ is_computed cd = false).
+  { destruct (is_computed md); [congruence|]. destruct (is_computed cd); [congruence|].
+    destruct (ctx_compare_server_default _ _ _); [|congruence]. intros H; inversion H; auto. }
+  destruct cd, md; auto; congruence. Qed.
+Lemma fix_computed g cc mc : is_computed (c_default (reflect_col (alter_col (compare_nullable (reflect_col cc) mc) (compare_type_col g (reflect_col cc) mc)
+            (compare_server_default_col g (reflect_col cc) mc) cc))) = is_computed (c_default (reflect_col cc)).
+Proof. unfold alter_col. cbn [reflect_col c_default]. rewrite !is_computed_reflect.
+  destruct (compare_server_default_col g (reflect_col cc) mc) as [d|] eqn:E; auto.
+  apply csd_some in E. destruct E as [-> [H1 H2]]. cbn [reflect_col c_default] in H2. rewrite is_computed_reflect in H2. congruence. Qed.
 
 Lemma alter_column_nil g tn rc mc :
   compare_nullable rc mc = None -> compare_type_col g rc mc = None -> compare_server_default_col g rc mc = None ->
@@ -281,12 +297,17 @@ Proof. unfold alter_column. intros -> -> ->. auto. Qed.
 
 Lemma alter_column_fix g tn cc mc : dok_col mc -> alter_column g tn (reflect_col (alter_fix g cc mc)) mc = [].
 Proof. intros Hok. apply alter_column_nil.
-  - unfold alter_fix, alter_col, compare_nullable. simpl.
-    destruct (Bool.eqb (c_null cc) (c_null mc)) eqn:En; simpl; [rewrite En|rewrite eqb_reflx]; auto.
+  - unfold alter_fix. unfold compare_nullable at 1. rewrite fix_computed. unfold alter_col. cbn [reflect_col c_null c_default].
+    unfold compare_nullable. cbn [reflect_col c_null c_default].
+    destruct (Bool.eqb (c_null cc) (c_null mc)) eqn:En.
+    + rewrite En. auto.
+    + destruct ((is_computed (c_default mc) || is_computed (option_map reflect_default (c_default cc))) && negb (c_null_set mc)) eqn:Eg.
+      * rewrite En. auto.
+      * rewrite eqb_reflx. auto.
   - unfold alter_fix, alter_col, compare_type_col. simpl.
     destruct (ctx_compare_type g (c_ty cc) (c_ty mc)) eqn:Et; simpl; [rewrite ctx_compare_type_refl|rewrite Et]; auto.
   - destruct (compare_server_default_col g (reflect_col cc) mc) as [d|] eqn:Ed.
-    + pose proof (csd_some _ _ _ _ Ed) as Hd. rewrite (csd_ext g (reflect_col (alter_fix g cc mc)) (reflect_col mc) mc).
+    + destruct (csd_some _ _ _ _ Ed) as [Hd _]. rewrite (csd_ext g (reflect_col (alter_fix g cc mc)) (reflect_col mc) mc).
       * apply csd_quiet; auto.
       * unfold alter_fix, alter_col. cbn [reflect_col c_default]. rewrite Ed, Hd. reflexivity.
     + rewrite (csd_ext g (reflect_col (alter_fix g cc mc)) (reflect_col cc) mc); auto.
@@ -581,14 +602,43 @@ Proof. induction l as [|a l IH]; simpl; auto. destruct (q a); simpl; congruence.
 Lemma run_drops tn (ds:list fk) S f : In f (run apply_fop (map (drop_of tn) ds) S) <-> In f S /\ ~ In (f_name f) (map f_name ds).
 Proof. revert S; induction ds as [|d ds IH]; intros S; simpl. { unfold run; simpl. tauto. }
   unfold run in *. simpl. rewrite IH. unfold kremove. rewrite filter_In, negb_true_iff, N.eqb_neq. intuition. Qed.
-Lemma run_adds tn L S : run apply_fop (map (OpAddFk tn) L) S = S ++ L.
-Proof. revert S; induction L as [|a L IH]; intros S; simpl. { unfold run; simpl. rewrite app_nil_r; auto. }
-  unfold run in *. simpl. rewrite IH, <- app_assoc. auto. Qed.
+Lemma kremove_notin {A} (key:A->N) n l : ~ In n (keys key l) -> kremove key n l = l.
+Proof. unfold kremove, keys. induction l as [|a l IH]; simpl; auto. intros H. destruct (N.eqb_spec (key a) n) as [E|E]; [exfalso; auto|].
+  simpl. rewrite IH; auto. Qed.
+Lemma run_adds tn L S : (forall a, In a L -> f_named a = true -> ~ In (f_name a) (keys f_name S)) -> NoDup (keys f_name L) ->
+  run apply_fop (map (OpAddFk tn) L) S = S ++ L.
+Proof. revert S; induction L as [|a L IH]; intros S Hfresh Hnd; simpl. { unfold run; simpl. rewrite app_nil_r; auto. }
+  inversion Hnd as [|? ? Hn Hd]; subst. unfold run in *. simpl.
+  assert (Ha: (if f_named a then kremove f_name (f_name a) S else S) = S).
+  { destruct (f_named a) eqn:E; auto. apply kremove_notin. apply Hfresh; simpl; auto. }
+  rewrite Ha, IH, <- app_assoc; auto.
+  intros b Hb Hnb Hin. unfold keys in Hin. rewrite map_app, in_app_iff in Hin. destruct Hin as [Hin|[Hin|[]]].
+  - apply (Hfresh b); simpl; auto.
+  - apply Hn. rewrite Hin. apply in_map; auto. Qed.
+Lemma NoDup_keys_filter {A} (key:A->N) p l : NoDup (keys key l) -> NoDup (keys key (filter p l)).
+Proof. unfold keys. induction l as [|a l IH]; simpl; auto. intros H. inversion H as [|? ? Hn Hd]; subst.
+  destruct (p a); simpl; auto. constructor; auto. intros Hin. apply Hn. apply in_map_iff in Hin. destruct Hin as [x [Hx Hin]].
+  apply filter_In in Hin. rewrite <- Hx. apply in_map. tauto. Qed.
+Definition fk_names_okP (fc fm:list fk) : Prop :=
+  forall cf mf, In cf fc -> In mf fm -> f_name cf = f_name mf -> f_named mf = true -> existsb (fk_sig_eqb cf) fm = true -> fk_sig_eqb mf cf = true.
+Lemma fk_names_okb_P fc fm : fk_names_okb fk_sig_eqb fc fm = true -> fk_names_okP fc fm.
+Proof. unfold fk_names_okb, fk_names_okP. rewrite forallb_forall. intros H cf mf Hc Hm Hn Hnm He. specialize (H mf Hm).
+  rewrite forallb_forall in H. specialize (H cf Hc). rewrite Hn, N.eqb_refl, Hnm, He in H. simpl in H. auto. Qed.
 
-Lemma fks_after tn c m : NoDup (keys f_name (t_fks c)) ->
+Lemma fks_after tn c m : NoDup (keys f_name (t_fks c)) -> NoDup (keys f_name (t_fks m)) -> fk_names_okP (t_fks c) (t_fks m) ->
   fks_ok (run apply_fop (compare_foreign_keys tn (Some c) (Some m)) (t_fks c)) (t_fks m).
-Proof. intros Hnd. unfold compare_foreign_keys. rewrite drops_as_map, adds_as_map, run_app, run_adds.
-  set (fc := t_fks c) in *. set (fm := t_fks m).
+Proof. intros Hnd Hndm Hok. unfold compare_foreign_keys. rewrite drops_as_map, adds_as_map, run_app.
+  set (fc := t_fks c) in *. set (fm := t_fks m) in *.
+  assert (Hin0: forall f, In f (run apply_fop (map (drop_of tn) (filter (fun f => negb (existsb (fk_sig_eqb f) fm)) fc)) fc) ->
+                         In f fc /\ existsb (fk_sig_eqb f) fm = true).
+  { intros f Hf. apply run_drops in Hf. destruct Hf as [Hf Hn]. split; auto. destruct (existsb (fk_sig_eqb f) fm) eqn:E; auto. exfalso. apply Hn.
+    apply in_map. apply filter_In. rewrite E. auto. }
+  rewrite run_adds.
+  2:{ intros mf Hmf Hnm Hk. apply filter_In in Hmf. destruct Hmf as [Hmf Hq]. apply negb_true_iff in Hq.
+      unfold keys in Hk. apply in_map_iff in Hk. destruct Hk as [cf [Hcn Hcf]]. apply Hin0 in Hcf. destruct Hcf as [Hcf Hs].
+      pose proof (Hok cf mf Hcf Hmf Hcn Hnm Hs) as Heq.
+      assert (existsb (fk_sig_eqb mf) fc = true) by (apply existsb_exists; exists cf; auto). congruence. }
+  2:{ apply NoDup_keys_filter; auto. }
   assert (Hin: forall f, In f (run apply_fop (map (drop_of tn) (filter (fun f => negb (existsb (fk_sig_eqb f) fm)) fc)) fc) <->
                          In f fc /\ existsb (fk_sig_eqb f) fm = true).
   { intros f. rewrite run_drops. split.
@@ -630,8 +680,9 @@ Proof. intros Hm H. apply cols_ok_of_sel; auto. intros n. specialize (H n). rewr
 
 (* ================================================================ an existing table converges in one pass *)
 Lemma existing_converge g c m : nd_table c -> nd_table m -> dok_table m -> NoDup (keys f_name (t_fks c)) ->
+  NoDup (keys f_name (t_fks m)) -> fk_names_okP (t_fks c) (t_fks m) ->
   existing_table g (reflect_table (run apply_top (existing_table g (reflect_table c) m) c)) m = [].
-Proof. intros [Hcc Hck] [Hmc Hmk] Hok Hfk.
+Proof. intros [Hcc Hck] [Hmc Hmk] Hok Hfk Hfkm Hnames.
   set (pre := compare_columns_pre g (t_name m) (reflect_table c) m).
   set (ciu := compare_indexes_and_uniques (t_name m) (Some (reflect_table c)) (Some m)).
   set (cfk := compare_foreign_keys (t_name m) (Some (reflect_table c)) (Some m)).
@@ -664,7 +715,7 @@ Proof. intros [Hcc Hck] [Hmc Hmk] Hok Hfk.
     rewrite (run_id apply_fop pre). 2:{ intros o Ho. eapply col_op_fop; eauto. }
     rewrite (run_id apply_fop ciu). 2:{ intros o Ho. eapply cons_op_fop; eauto. }
     rewrite (run_id apply_fop post). 2:{ intros o Ho. eapply col_op_fop; eauto. }
-    unfold cfk. rewrite cfk_reflect. apply fks_after. auto.
+    unfold cfk. rewrite cfk_reflect. apply fks_after; auto.
 Qed.
 
 Lemma cols_ok_refl g tn cs : NoDup (keys c_name cs) -> (forall c, In c cs -> dok_col c) -> cols_ok g tn (map reflect_col cs) cs.
@@ -794,14 +845,16 @@ Proof. intros H Hd. apply wf_schema_nd in H. destruct H as [Hn Ht]. pose proof (
   - intros c Hc. unfold reflect_sqlite in Hc. apply in_map_iff in Hc. destruct Hc as [c0 [<- Hc0]]. cbn [reflect_table t_name].
     unfold keys. apply in_map; auto. Qed.
 
-Theorem diff_converge g A B : wf_schemab A = true -> wf_schemab B = true -> defaults_ok B = true ->
+Theorem diff_converge g A B : wf_schemab A = true -> wf_schemab B = true -> defaults_ok B = true -> fk_names_ok A B = true ->
   diff g (reflect_sqlite (apply_ops (diff g (reflect_sqlite A) B) A)) B = [].
-Proof. intros HA HB Hd. pose proof (wf_schema_ndf _ HA) as HAf. apply wf_schema_nd in HA. apply wf_schema_nd in HB. destruct HA as [HAn HAt], HB as [HBn HBt].
+Proof. intros HA HB Hd Hnm. pose proof (wf_schema_ndf _ HA) as HAf. pose proof (wf_schema_ndf _ HB) as HBf. apply wf_schema_nd in HA. apply wf_schema_nd in HB. destruct HA as [HAn HAt], HB as [HBn HBt].
   pose proof (defaults_ok_dok _ Hd) as Hok. unfold diff. apply compare_tables_nil.
   - intros m Hm. unfold reflect_sqlite at 1. rewrite (kfind_map t_name reflect_table reflect_table_name), kfind_hd, tables_after; auto.
     rewrite (kfind_nodup t_name m B); auto.
     destruct (kfind t_name (t_name m) A) as [c|] eqn:Ec; eexists; split; try reflexivity.
-    + apply kfind_some in Ec. apply existing_converge; auto; [apply HAt|apply HAf]; tauto.
+    + assert (Hn: fk_names_okP (t_fks c) (t_fks m)).
+      { apply fk_names_okb_P. unfold fk_names_ok in Hnm. rewrite forallb_forall in Hnm. specialize (Hnm m Hm). rewrite Ec in Hnm. auto. }
+      apply kfind_some in Ec. apply existing_converge; auto; [apply HAt|apply HAf]; tauto.
     + apply created_quiet; auto.
   - intros c Hc. unfold reflect_sqlite at 1 in Hc. apply in_map_iff in Hc. destruct Hc as [c0 [<- Hc0]]. cbn [reflect_table t_name].
     assert (Hs: In c0 (ksel t_name (t_name c0) (apply_ops (compare_tables g (reflect_sqlite A) B) A))) by (apply ksel_In; auto).
